@@ -128,6 +128,29 @@ Theorem C17_rotate_c16_matrix_up_to_drop : forall s D c sn axis evs out a0 a1,
 Proof. exact rotate_c16_matrix_up_to_drop. Qed.
 Print Assumptions C17_rotate_c16_matrix_up_to_drop.
 
+(* the "no raster-sampled shape" part of LegalList is not an extra assumption: it follows from C05Legal
+   (corner times on the raster make add_gradients' arbitrary-shape test false) ... *)
+Theorem C17_c05_legal_is_legal_list : forall s D l,
+  AddGradLegal.C05Legal (ag_sys s) D (map to_ag l) -> LegalList s D l.
+Proof. exact c05_legal_is_legal_list. Qed.
+Print Assumptions C17_c05_legal_is_legal_list.
+
+(* ... so the final statement needs C05Legal of property C16 only *)
+Theorem C17_rotate_c16_matrix_up_to_drop_legal : forall s D c sn axis evs out a0 a1,
+  axes_of axis = Some (a0, a1) ->
+  (grads_on a0 evs ++ grads_on a1 evs <> [] ->
+   AddGradLegal.C05Legal (ag_sys s) D (map to_ag (grads_on a0 evs ++ grads_on a1 evs))) ->
+  rotate (add_c16 s) c sn axis evs = OK out ->
+  let r := raster s in
+  let '(R1, R2, thr) := rot_parts c sn a0 a1 evs in
+  forall t,
+    Qabs (render r a0 out t - (c * render r a0 evs t - sn * render r a1 evs t))
+      <= inject_Z (Z.of_nat (n_dropped thr (add_c16 s) R1)) * thr + AddGrad.eps /\
+    Qabs (render r a1 out t - (sn * render r a0 evs t + c * render r a1 evs t))
+      <= inject_Z (Z.of_nat (n_dropped thr (add_c16 s) R2)) * thr + AddGrad.eps.
+Proof. exact rotate_c16_matrix_up_to_drop_legal. Qed.
+Print Assumptions C17_rotate_c16_matrix_up_to_drop_legal.
+
 (* non-vacuity: x and y trapezoids with the same timing (equal-timing path of add_gradients) and an
    extended trapezoid on y, rotated about z by (3/5, 4/5): legal, and rotate returns two events *)
 Definition c17_ex_sys := mkSys 1 1000000 1000000.
